@@ -416,6 +416,7 @@ impl World {
             }
         }
         // the call itself
+        Rec::about_to("server.requests()");
         let server = self.server.as_mut().unwrap();
         let res = catch_unwind(AssertUnwindSafe(|| server.requests()));
         let fds_after = open_fds();
@@ -613,6 +614,7 @@ impl World {
             return;
         }
         let _ = self.observe_client_deltas();
+        Rec::about_to("server.flush_outgoing_writes()");
         let server = self.server.as_mut().unwrap();
         let r = catch_unwind(AssertUnwindSafe(|| server.flush_outgoing_writes()));
         let deltas = self.observe_client_deltas();
